@@ -32,3 +32,18 @@ Definition spec_leaks_ok (c : Z * list feature * list feature) : bool :=
   let '(year, detected, leaks) := c in
   list_eqb feature_eqb (spec_leaks year detected) leaks.
 Definition check_spec_leaks := mismatches spec_leaks_ok.
+
+(* lowering graph: (unsupported set as esbuild computed it, features the probe uses,
+   did the transform succeed, features the detector saw in the output).
+   The model must predict the outcome, and every observed feature that is newer than
+   ES2015 or unsupported must be among the features the model says are written. *)
+Definition tracked (U : fset) (g : feature) : bool := U g || newer_than 2015 g.
+Definition lower_ok (c : list feature * list feature * bool * list feature) : bool :=
+  let '(ul, prog, ok, observed) := c in
+  let U := fset_of ul in
+  match compile U prog, ok with
+  | Error, false => true
+  | Ok out, true => forallb (fun g => negb (tracked U g) || existsb (feature_eqb g) out) observed
+  | _, _ => false
+  end.
+Definition check_lower := mismatches lower_ok.
